@@ -279,6 +279,8 @@ impl Subscriber for SubscriberService {
         let messages_fut = async {
             loop {
                 let signal = subscription.messages_available();
+                #[cfg(deltio_verif)]
+                crate::verif::point("pull.subscribed").await;
                 let received_messages =
                     pull_messages(&subscription, request.max_messages as u16).await?;
                 // If we got messages, return them.
@@ -300,6 +302,8 @@ impl Subscriber for SubscriberService {
                 }
 
                 // Otherwise, wait for messages to be available.
+                #[cfg(deltio_verif)]
+                crate::verif::point("pull.wait").await;
                 signal.await;
             }
         };
@@ -355,6 +359,8 @@ impl Subscriber for SubscriberService {
 
                     // Subscribe to the deletion signal.
                     let deleted = subscription.deleted();
+                    #[cfg(deltio_verif)]
+                    crate::verif::point("stream.subscribed").await;
 
                     // Then, pull the available messages from the subscription.
                     let pulled = match subscription.pull_messages(max_count).await {
@@ -385,6 +391,8 @@ impl Subscriber for SubscriberService {
 
                     // Wait for the next signal and do it all over again.
                     // If the subscription is deleted while we wait, return a not found.
+                    #[cfg(deltio_verif)]
+                    crate::verif::point("stream.wait").await;
                     was_deleted = tokio::select! {
                         _ = signal => false,
                         _ = deleted => true
